@@ -117,7 +117,7 @@ impl Prio3Visitor for V17<'_> {
 
 fn poplar(ctx: &mut Ctx) {
     let mut rng = ctx.rng("c17-poplar");
-    let n = ctx.budget(400, 20_000) / ctx.nshards as u64;
+    let n = ctx.budget(3_200, 20_000) / ctx.nshards as u64;
     for i in 0..n {
         let bits = *rng.choose(&[1usize, 2, 3, 8, 16, 64, 256, 1024]);
         let bits = if ctx.quick() && bits > 256 && i % 8 != 0 { 64 } else { bits };
@@ -177,7 +177,7 @@ fn poplar(ctx: &mut Ctx) {
 
 pub fn run(ctx: &mut Ctx) {
     let mut rng = ctx.rng("c17");
-    let n_cfg = ctx.budget(4_000, 300_000) / ctx.nshards as u64;
+    let n_cfg = ctx.budget(32_000, 300_000) / ctx.nshards as u64;
     for i in 0..n_cfg {
         let kind = Kind::ALL[(i as usize + ctx.shard) % Kind::ALL.len()];
         let p = gen_params(&mut rng, kind, 200);
